@@ -1,5 +1,4 @@
-// vcheck: parent (orchestrator) and worker of the runtime-monitoring checks.
-package main
+package core
 
 import (
 	"flag"
@@ -7,11 +6,10 @@ import (
 	"os"
 	"strconv"
 
-	"verif/harness/core"
-	_ "verif/harness/props"
 )
 
-func main() {
+// Main is the entry point of every vcheck-<group> binary: parent (orchestrator), worker or replay.
+func Main() {
 	var (
 		worker   = flag.Bool("worker", false, "run as worker")
 		prop     = flag.String("prop", "", "property id")
@@ -27,7 +25,7 @@ func main() {
 	)
 	flag.Parse()
 	if *list {
-		for _, id := range core.IDs() {
+		for _, id := range IDs() {
 			fmt.Println(id)
 		}
 		return
@@ -44,7 +42,7 @@ func main() {
 	if t := os.Getenv("VERIF_TIER"); t != "" && !*worker && flagNotSet("tier") {
 		*tier = t
 	}
-	p := core.Lookup(*prop)
+	p := Lookup(*prop)
 	if p == nil {
 		fmt.Printf("INCONCLUSIVE property=%s reason=unknown-property\n", *prop)
 		os.Exit(2)
@@ -54,17 +52,17 @@ func main() {
 		os.Exit(2)
 	}
 	if *worker {
-		core.RunWorker(p, *tier, seed, *shard, *nshards, *only, *out, *inflight)
+		RunWorker(p, *tier, seed, *shard, *nshards, *only, *out, *inflight)
 		return
 	}
 	if *replay != "" {
-		os.Exit(core.Replay(p, *replay))
+		os.Exit(Replay(p, *replay))
 	}
 	self, err := os.Executable()
 	if err != nil {
 		self = os.Args[0]
 	}
-	os.Exit(core.RunParent(p, *tier, seed, self))
+	os.Exit(RunParent(p, *tier, seed, self))
 }
 
 func flagNotSet(name string) bool {
